@@ -36,7 +36,7 @@ pub struct Case {
 pub fn case_strategy() -> impl Strategy<Value = Case> {
     let fault = prop_oneof![
         6 => Just(Fault::None),
-        2 => (any::<u16>(), prop_oneof![3 => prop::sample::select(vec![2u16, 5, 12, 15, 16, 28, 33, 255, 0]), 1 => any::<u16>()], prop_oneof![3 => Just(1u16), 1 => prop::sample::select(vec![3u16, 4, 255, 0])])
+        2 => (any::<u16>(), prop_oneof![3 => prop::sample::select(vec![2u16, 5, 12, 15, 16, 28, 33, 255, 0]), 2 => Just(1u16), 1 => prop::sample::select(vec![0x0101u16, 0x8001, 0x0100, 0x4001]), 1 => any::<u16>()], prop_oneof![3 => Just(1u16), 1 => prop::sample::select(vec![3u16, 4, 255, 0]), 2 => prop::sample::select(vec![0x8001u16, 0x0101, 0x0100, 0x8003, 0x4001, 0xff01, 0x0081]), 1 => any::<u16>()])
             .prop_map(|(idx, qtype, qclass)| Fault::NotInA { idx, qtype: if qtype == 1 && qclass == 1 { 28 } else { qtype }, qclass }),
         2 => any::<u16>().prop_map(Fault::Truncated),
     ];
